@@ -34,7 +34,7 @@ fn no_known(_: &Case, _: &Outcome) -> Option<String> {
 
 pub const LEX_ALPHABET: &[&str] = &[
     "a", "F", "I", "n", "1", "0", "_", ".", "\"", "\\", "\n", "\r", " ", "\t", "(", ")", "[", "]", "{", "}", ",", "-", "+", "*", "/", ";", "!", "=", "<", ">", "é", "中",
-    "😀",
+    "😀", "\0", "²",
 ];
 
 pub fn all_strings(alphabet: &[&str], max_len: usize) -> Vec<String> {
@@ -167,6 +167,21 @@ pub fn c07(ctx: &Ctx) -> PropResult {
     let max_len = if ctx.quick() { 3 } else { 4 };
     for s in all_strings(LEX_ALPHABET, max_len) {
         cases.push(Case::new(Kind::Lex, s).tag("exhaustive"));
+    }
+    // comments: every kind of tail, followed by a line that carries tokens; string literals holding every
+    // character of the alphabet
+    for tail in ["", " ", "\\", "\\ ", "\\\\", "\"", "//", "/", "é", "\\n", "\r", "\t\\", "C:\\dir\\", "\0"] {
+        for next in ["x", "1", "\"s\"", "+", "}", "", "// z", "\\"] {
+            for before in ["", "a ", "a <- 1 ", "\"q\" "] {
+                cases.push(Case::new(Kind::Lex, format!("{before}// c{tail}\n{next}\ny")).tag("comment-tail"));
+                cases.push(Case::new(Kind::Lex, format!("{before}//{tail}")).tag("comment-tail"));
+            }
+        }
+    }
+    for c in LEX_ALPHABET {
+        for d in LEX_ALPHABET {
+            cases.push(Case::new(Kind::Lex, format!("x <- \"a{c}{d}b\" y")).tag("string-body"));
+        }
     }
     let mut rng = mk_rng(ctx.seed, 7);
     let n_random = if ctx.quick() { 20_000 } else { 300_000 };
@@ -324,6 +339,24 @@ pub fn c08(ctx: &Ctx) -> PropResult {
                 cases.push(Case::new(Kind::Parse, t.replace('@', &body)).tag("long-token-error"));
                 cases.push(Case::new(Kind::Parse, t.replace('@', &format!("\"{body}\""))).tag("long-token-error"));
             }
+        }
+    }
+    // diagnostics that print syntax: every expression form as an (invalid) assignment target, operand, argument
+    let lhs = ["f()", "f(1)", "f(1, 2)", "[1, g(2), f()]", "(a)", "1", "\"s\"", "a + b", "NOT a", "-a", "a[1][2]", "f()[1]", "TRUE", "NULL", "a AND b", "[]", "f(g())", "[[f()]]", "(a <- 1)", "a == b", "f()()", "-f()", "f() + g()", "[f(), []]", "a[f()]", "(f())", "NOT f()", "f([])", "a[1] <- 2"];
+    for l in lhs {
+        for form in ["{} <- 1", "x <- {} <- 1", "DISPLAY({} <- 2)", "IF ({} <- 1) {{ }}", "{} <- ", "({}) <- [f()]", "REPEAT {} <- 1 TIMES {{ }}", "FOR EACH {} IN x {{ }}", "PROCEDURE p({}) {{ }}", "IMPORT {} FROM MOD \"M\""] {
+            cases.push(Case::new(Kind::Parse, form.replace("{}", l)).tag("syntax-printing-diagnostic"));
+        }
+    }
+    {
+        let n = if ctx.quick() { 600 } else { 10_000 };
+        for _ in 0..n {
+            let mut g = crate::gen::Gen::new(&mut rng);
+            g.depth_limit = 3;
+            g.procs.push(("f".into(), 0));
+            g.procs.push(("g".into(), 1));
+            let e = g.expr(0);
+            cases.push(Case::new(Kind::Parse, format!("{e} <- 1\n")).tag("syntax-printing-diagnostic"));
         }
     }
     // bracket nesting to the fixed depth
